@@ -228,7 +228,7 @@ class kLeastAbsErrorsCycles(walkmodel.AbstractWalkModelDiGraph):
             if self.subset_constraints_coverage == 1.0:
                 for constraint in self.subset_constraints:
                     # (only well-formed edges; malformed constraints are reported as ValueError by the base class)
-                    self.optimization_options["trusted_edges_for_safety"].update(edge for edge in constraint if isinstance(edge, tuple))
+                    self.optimization_options["trusted_edges_for_safety"].update(edge for edge in (constraint if isinstance(constraint, (list, tuple)) else []) if isinstance(edge, tuple))
 
         # Call the constructor of the parent class AbstractWalkModelDiGraph
         super().__init__(
